@@ -370,6 +370,10 @@ bool ImportProject::importCompileCommands(std::istream &istr)
     std::map<std::string, std::size_t> fsFileIds;
 
     for (const picojson::value &fileInfo : compileCommands.get<picojson::array>()) {
+        if (!fileInfo.is<picojson::object>()) {
+            errors.emplace_back("compilation database entry is not a JSON object");
+            return false;
+        }
         picojson::object obj = fileInfo.get<picojson::object>();
 
         if (obj.count("directory") == 0) {
@@ -1516,7 +1520,10 @@ bool ImportProject::importCppcheckGuiProject(std::istream &istr, Settings &setti
                     s.fileName = joinRelativePath(path, s.fileName);
                 s.lineNumber = child->IntAttribute("lineNumber", SuppressionList::Suppression::NO_LINE); // TODO: should not depend on Suppression
                 s.symbolName = empty_if_null(child->Attribute("symbolName"));
-                s.hash = strToInt<std::size_t>(default_if_null(child->Attribute("hash"), "0"));
+                if (!strToInt(default_if_null(child->Attribute("hash"), "0"), s.hash)) {
+                    errors.emplace_back("Cppcheck GUI project file has a suppression with an invalid 'hash' attribute");
+                    return false;
+                }
                 suppressions.push_back(std::move(s));
             }
         } else if (strcmp(name, CppcheckXml::VSConfigurationElementName) == 0)
@@ -1558,10 +1565,17 @@ bool ImportProject::importCppcheckGuiProject(std::istream &istr, Settings &setti
             temp.checkUnusedTemplates = (strcmp(default_if_null(node->GetText(), ""), "true") == 0);
         else if (strcmp(name, CppcheckXml::InlineSuppression) == 0)
             temp.inlineSuppressions = (strcmp(default_if_null(node->GetText(), ""), "true") == 0);
-        else if (strcmp(name, CppcheckXml::MaxCtuDepthElementName) == 0)
-            temp.maxCtuDepth = strToInt<int>(default_if_null(node->GetText(), "2")); // TODO: bail out when missing?
-        else if (strcmp(name, CppcheckXml::MaxTemplateRecursionElementName) == 0)
-            temp.maxTemplateRecursion = strToInt<int>(default_if_null(node->GetText(), "100")); // TODO: bail out when missing?
+        else if (strcmp(name, CppcheckXml::MaxCtuDepthElementName) == 0) {
+            if (!strToInt(default_if_null(node->GetText(), "2"), temp.maxCtuDepth)) { // TODO: bail out when missing?
+                errors.emplace_back(std::string("Cppcheck GUI project file has an invalid value in element '") + name + "'");
+                return false;
+            }
+        } else if (strcmp(name, CppcheckXml::MaxTemplateRecursionElementName) == 0) {
+            if (!strToInt(default_if_null(node->GetText(), "100"), temp.maxTemplateRecursion)) { // TODO: bail out when missing?
+                errors.emplace_back(std::string("Cppcheck GUI project file has an invalid value in element '") + name + "'");
+                return false;
+            }
+        }
         else if (strcmp(name, CppcheckXml::CheckUnknownFunctionReturn) == 0)
             ; // TODO
         else if (strcmp(name, Settings::SafeChecks::XmlRootName) == 0) {
